@@ -4,7 +4,7 @@ import pyspec
 from . import C01, common
 
 ID = "C08"
-LEVEL = "other"
+LEVEL = "proof"
 RULE = ("random programs (length <= 25 quick / <= 200 thorough) over 4-6 variables with reused and aliased receivers, mixing "
         "arithmetic, FMA, setters, SetPrec/SetMode, raw SetBitsExp within its contract, MantExp/SetMantExp, Gob round trips and "
         "decoding of corrupted encodings; after every step every variable's raw words are checked against the canonical-form "
